@@ -69,7 +69,15 @@ type Params struct {
 	HalfOpen   bool // include connections that never send CONNECT / get rejected
 	HeavyYield bool
 	Stalled    int `json:",omitempty"` // v5 consumers that stop reading, are flooded and then displaced
+	// Redis: the broker keeps its sessions in the durable (redis) store; RefuseEvery > 0: while the traffic flows
+	// redis answers every n-th state-changing command with an error reply instead of executing it
+	Redis       bool `json:",omitempty"`
+	RefuseEvery int  `json:",omitempty"`
 }
+
+// RedisCfgHook (set by the registration code) switches a configuration to the redis back end on a private fake redis
+// and returns a setter for the fault hook of that server (see fakeredis.Server.SetFault).
+var RedisCfgHook func(c *config.Config) (cleanup func(), setFault func(f func(pos int, args [][]byte) string), err error)
 
 // stallConn is a connection whose reader can be stopped for good (the peer's writes then block).
 type stallConn struct {
@@ -168,15 +176,74 @@ func (c *chaos) op(name string) {
 var topics = []string{"a/b", "a/c", "b", "a/b/c", "$s/x"}
 var filters = []string{"a/#", "a/+", "#", "b", "+/b", "$share/g/a/#", "$share/g/b", "$s/#", "a/b"}
 
-// unanswered is called when a request got no answer in time: it is a violation only if the broker shows no progress.
+// unanswered is called when a request got no answer within reqTimeout. That is a violation if the broker is stuck
+// or has lost the request - not if the machine is merely too slow for the deadline:
+//   - a fresh client (CONNECT + PINGREQ) is served meanwhile: the broker works, the request is lost => violation;
+//   - the fresh client is not served either and two goroutine dumps 5 s apart show the same broker goroutines in
+//     the same places: no progress => violation (dead lock);
+//   - otherwise the broker is making progress slowly: inconclusive.
 func (c *chaos) unanswered(what string) {
 	if atomic.LoadInt32(&c.stopped) == 1 {
 		return
 	}
+	kind := strings.SplitN(what, " ", 2)[0]
+	t0 := time.Now()
 	d1 := monitor.GoroutineDump("gmqtt/server")
-	time.Sleep(5 * time.Second)
+	canary := func() error {
+		cc, err := wire.Dial("canary", c.b.Addr, mqttx.V311)
+		if err != nil {
+			return err
+		}
+		defer cc.Close()
+		if _, err := cc.Connect(&mqttx.Packet{ClientID: fmt.Sprintf("canary-%d", time.Now().UnixNano()), CleanStart: true}, 10*time.Second); err != nil {
+			return err
+		}
+		return cc.Ping(10 * time.Second)
+	}
+	cerr := canary()
+	if atomic.LoadInt32(&c.stopped) == 1 {
+		return
+	}
+	if cerr == nil && monitor.Jitter(t0.Add(-reqTimeout)) < 500*time.Millisecond {
+		c.add("request.unanswered:"+kind, fmt.Sprintf("%s not answered within %v although a fresh client was served in %v meanwhile", what, reqTimeout, time.Since(t0).Round(time.Millisecond)), map[string]any{"goroutines": d1})
+		return
+	}
+	if el := time.Since(t0); el < 5*time.Second {
+		time.Sleep(5*time.Second - el)
+	}
 	d2 := monitor.GoroutineDump("gmqtt/server")
-	c.add("request.unanswered:"+strings.SplitN(what, " ", 2)[0], fmt.Sprintf("%s not answered within %v", what, reqTimeout), map[string]any{"goroutines_t0": d1, "goroutines_t5s": d2})
+	if atomic.LoadInt32(&c.stopped) == 1 {
+		return
+	}
+	if cerr != nil && sameGoroutines(d1, d2) {
+		c.add("request.unanswered:"+kind, fmt.Sprintf("%s not answered within %v, a fresh client is not served either (%v) and the broker's goroutines have not moved for 5 s", what, reqTimeout, cerr), map[string]any{"goroutines_t0": d1, "goroutines_t5s": d2})
+		return
+	}
+	c.r.Inconclusive(fmt.Sprintf("%s not answered within %v, but the broker is making progress (fresh client: %v, timers up to %v late): machine too slow to judge", what, reqTimeout, cerr, monitor.Jitter(t0.Add(-reqTimeout))))
+}
+
+// sameGoroutines: the same goroutine ids with the same top frames in both dumps.
+func sameGoroutines(a, b []string) bool {
+	key := func(g string) string {
+		l := strings.Split(g, "\n")
+		if len(l) > 5 {
+			l = l[:5]
+		}
+		return strings.Join(l, "\n")
+	}
+	if len(a) != len(b) {
+		return false
+	}
+	m := map[string]bool{}
+	for _, g := range a {
+		m[key(g)] = true
+	}
+	for _, g := range b {
+		if !m[key(g)] {
+			return false
+		}
+	}
+	return true
 }
 
 func (c *chaos) actor(i int, wg *sync.WaitGroup) {
@@ -355,6 +422,13 @@ func runChaos(r *monitor.Run, p Params) {
 	yield.Enable(p.Seed, p.HeavyYield)
 	drng := rand.New(rand.NewSource(p.Seed))
 	var dmu sync.Mutex
+	var redisCleanup func()
+	var setFault func(f func(pos int, args [][]byte) string)
+	defer func() {
+		if redisCleanup != nil {
+			redisCleanup()
+		}
+	}()
 	b, err := broker.Start(broker.Options{WS: true, Hooks: server.Hooks{OnBasicAuth: func(ctx context.Context, cl server.Client, req *server.ConnectRequest) error {
 		if string(req.Connect.ClientID) == "reject-me" {
 			return errors.New("rejected by the chaos hook")
@@ -364,6 +438,9 @@ func runChaos(r *monitor.Run, p Params) {
 		c.PluginOrder = []string{"verifStop"}
 		c.MQTT.MaxQueuedMsg = 50
 		c.MQTT.MaxInflight = 5
+		if p.Redis && RedisCfgHook != nil {
+			redisCleanup, setFault, _ = RedisCfgHook(c)
+		}
 	}, Delay: func(kind string) {
 		dmu.Lock()
 		x := drng.Intn(50)
@@ -377,6 +454,23 @@ func runChaos(r *monitor.Run, p Params) {
 		return
 	}
 	c := &chaos{p: p, b: b, r: r, ops: map[string]int64{}}
+	var refused int64
+	if p.Redis && setFault != nil && p.RefuseEvery > 0 {
+		var nth int64
+		setFault(func(pos int, args [][]byte) string {
+			if pos == 0 { // read-only command
+				return ""
+			}
+			if atomic.AddInt64(&nth, 1)%int64(p.RefuseEvery) == 0 {
+				atomic.AddInt64(&refused, 1)
+				return "ERR verif: injected write refusal"
+			}
+			return ""
+		})
+	}
+	if p.Redis {
+		r.Count("chaos_runs_on_redis", 1)
+	}
 	// the tear-down of a connection passes the close.* sites: they are logged next to the hook events
 	yield.Observe(func(site string) {
 		if strings.HasPrefix(site, "close.") {
@@ -468,6 +562,10 @@ func runChaos(r *monitor.Run, p Params) {
 	for i := 0; i < len(leaving) && i < 12; i++ {
 		leaving[i].Close()
 		time.Sleep(time.Duration(gaps[i]) * time.Microsecond)
+	}
+	if setFault != nil {
+		setFault(nil) // the store is healthy again before the broker is stopped
+		r.Count("redis_commands_refused", atomic.LoadInt64(&refused))
 	}
 	ctx, cancel := context.WithTimeout(context.Background(), 20*time.Second)
 	t0 := time.Now()
@@ -758,10 +856,13 @@ func Run(r *monitor.Run) {
 	stopDuringTeardown(r)
 	restoredSessions(r)
 	rng := r.Rand("chaos")
-	n := r.Pick(4, 40)
+	n := r.Pick(5, 40)
 	procs := []int{16, 2, 4, 1}
 	for i := 0; i < n; i++ {
 		p := Params{Seed: rng.Int63n(1 << 40), Clients: 20 + rng.Intn(r.Pick(20, 40)), Ops: r.Pick(60, 250), Procs: procs[i%len(procs)], HalfOpen: i%2 == 1, HeavyYield: i%3 == 0, Stalled: []int{2, 0, 1}[i%3]}
+		if RedisCfgHook != nil && i%4 == 3 {
+			p.Redis, p.RefuseEvery = true, []int{17, 5, 0}[(i/4)%3]
+		}
 		runChaos(r, p)
 		if i == 0 {
 			r.Sample(p)
